@@ -254,6 +254,22 @@ func buildModel(rec *Recording) *model {
 	return m
 }
 
+// destroyState: for bucket key at prefix k: (indeterminate: a Destroy is in flight; cutoff: effect position
+// of the last acknowledged Destroy's start, writes started before it no longer count; -1 none).
+func (m *model) destroyState(key string, k int) (indeterminate bool, cutoff int) {
+	cutoff = -1
+	for _, d := range m.rec.Destroys[key] {
+		if d[0] >= k {
+			continue
+		}
+		if d[1] < 0 || d[1] >= k {
+			return true, cutoff
+		}
+		cutoff = d[1]
+	}
+	return false, cutoff
+}
+
 func (m *model) acked(w *winfo, k int) bool    { return w.A >= 0 && w.A < k }
 func (m *model) started(w *winfo, k int) bool  { return w.S >= 0 && w.S < k }
 func (m *model) inflight(w *winfo, k int) bool { return m.started(w, k) && !m.acked(w, k) }
@@ -319,7 +335,9 @@ func (m *model) judge(s *snap, r *Recovered) *verdict {
 	for _, w := range m.rec.Writes {
 		if m.acked(w, k) {
 			for _, b := range w.Step.Buckets {
-				existed[b.Key] = true
+				if ind, cut := m.destroyState(b.Key, k); !ind && w.S > cut {
+					existed[b.Key] = true
+				}
 			}
 		}
 	}
@@ -353,6 +371,9 @@ func (m *model) judge(s *snap, r *Recovered) *verdict {
 			if row[3] != hist.ColB(row[2]) {
 				v.add(&v.C02, "violation", "", fmt.Sprintf("%s: torn row in %s at %d: A=%d B=%d", where, key, row[0], row[2], row[3]))
 			}
+			if ind, _ := m.destroyState(key, k); ind {
+				continue
+			}
 			if len(m.slots[sk]) == 0 {
 				v.add(&v.C02, "violation", "", fmt.Sprintf("%s: phantom row in %s at %d (A=%d): no write targets this interval", where, key, row[0], row[2]))
 			}
@@ -377,8 +398,15 @@ func (m *model) judge(s *snap, r *Recovered) *verdict {
 		if bd, ok := d.Buckets[sk.Key]; ok && bd.Err != "" {
 			continue
 		}
+		ind, cut := m.destroyState(sk.Key, k)
+		if ind {
+			continue
+		}
 		var ack, inf []slotWrite
 		for _, x := range ws {
+			if x.W.S <= cut {
+				continue // written before an acknowledged Destroy of the bucket
+			}
 			if m.acked(x.W, k) {
 				ack = append(ack, x)
 			} else if m.inflight(x.W, k) {
@@ -476,6 +504,9 @@ func (m *model) judge(s *snap, r *Recovered) *verdict {
 	for vv, w := range m.varRec {
 		if bd, ok := d.Buckets[m.varKey[vv].Key]; ok && bd.Err != "" {
 			continue
+		}
+		if len(m.rec.Destroys[m.varKey[vv].Key]) > 0 {
+			continue // histories destroy fixed-length buckets only; be safe
 		}
 		n := countV[vv]
 		v.cnt("variable_records_checked", 1)
